@@ -179,29 +179,40 @@ def order(ctx, report, facts, config, rule="C12.ORDER"):
 
 
 def convert(ctx, report, facts, config, rule="C12.CONVERT"):
+    """try_into_sendable: Ok(inner) exactly when there is no thread-local system, else the dispatcher back."""
+    from .. import semq as Q
     b = facts.one(A.DISP + "::try_into_sendable")
     report.touched(b, config)
-    paths = [p for p in enumerate_paths(b, facts) if p.end == "return"]
+    ev, ends = Q.sem(ctx, facts, b)
     seen = set()
-    for p in paths:
+    for e in ends:
+        if e.kind != "return":
+            report.ob(rule, "can-panic", False, "try_into_sendable can panic", site=b.loc(), config=config)
+            continue
         decided = None
-        for (ct, cv, cn, cb) in p.conds:
-            if ct[0] == "call":
-                c = S.callee_at(b, ct[1])
-                f_, i_, base = S.table_access(b, ct[2][0]) if ct[2] else ([], [], None)
-                if c.name == "is_empty" and S.crate_fields(f_) == [(A.DISP, "thread_local")] and base == ("param", 1):
+        for (ct, cv, cn, cs) in e.path.conds:
+            if Q.is_call(ev, ct, "is_empty"):
+                f_, i_, base = Q.table_access(ev, ct[2][0])
+                if Q.crate_fields(f_) == [(A.DISP, "thread_local")] and base == ("param", 1):
                     decided = cv
+            else:
+                nc = Q.norm_cmp(ct, cv)
+                if nc is not None and nc[2][0] == "int" and Q.is_call(ev, nc[1], "len"):
+                    f_, i_, base = Q.table_access(ev, nc[1][2][0])
+                    if Q.crate_fields(f_) == [(A.DISP, "thread_local")] and base == ("param", 1):
+                        zero = [n for n in (0, 1, 2) if Q.holds_for(nc[0], n, nc[2][1])]
+                        decided = 1 if zero == [0] else (0 if 0 not in zero else None)
         if decided is None:
             report.ob(rule, "undecided-path", False, "a path of try_into_sendable does not test thread_local.is_empty()", site=b.loc(), config=config)
             continue
-        ret = p.ret
+        ret = e.ret
         if decided == 1:
-            ok = ret[0] == "agg" and ret[2] == "std::result::Result::Ok" and ret[3] == (("field", ("param", 1), "inner", A.DISP),)
-            report.ob(rule, "empty->Ok(self.inner)", ok, "returns %s when thread_local is empty" % (ret[2:4] if ret[0] == "agg" else ret,), site=b.loc(), config=config)
+            ok = ret[0] == "agg" and ret[2] == "std::result::Result::Ok" and Q.strip(ev, ret[3][0]) == ("field", ("param", 1), "inner", A.DISP)
+            report.ob(rule, "empty->Ok(self.inner)", ok, "returns Ok(self.inner) when thread_local is empty" if ok else "does not return Ok(self.inner) when thread_local is empty", site=b.loc(), config=config)
             seen.add("empty")
         else:
-            ok = ret[0] == "agg" and ret[2] == "std::result::Result::Err" and ret[3] == (("param", 1),)
-            report.ob(rule, "non-empty->Err(self)", ok, "returns %s when thread_local is not empty" % (ret[2:4] if ret[0] == "agg" else ret,), site=b.loc(), config=config)
+            ok = ret[0] == "agg" and ret[2] == "std::result::Result::Err" and Q.strip(ev, ret[3][0]) == ("param", 1)
+            report.ob(rule, "non-empty->Err(self)", ok, "returns Err(self) when thread_local is not empty" if ok else "does not hand the dispatcher back when thread-local systems exist", site=b.loc(), config=config)
             seen.add("nonempty")
     report.ob(rule, "both-outcomes", seen == set(["empty", "nonempty"]), "outcomes seen: %s" % sorted(seen), site=b.loc(), config=config)
 
